@@ -1,7 +1,7 @@
 (* Props/C08.v — a disk stream behaves as an immutable byte array under any access history. *)
 From Coq Require Import ZArith List.
 From DH Require Import Base.Plan Base.Table Model.AlignedStream Proofs.AlignedStream Model.Lru Proofs.Lru
-  Proofs.StreamReaders Model.Vhd Proofs.Vhd Model.Vdi Proofs.Vdi Model.Vhdx Proofs.Vhdx Model.Hds Proofs.Hds.
+  Proofs.StreamReaders Model.AlignedStreamB Proofs.AlignedStreamB Proofs.StreamBytes Model.Vhd Proofs.Vhd Model.Vdi Proofs.Vdi Model.Vhdx Proofs.Vhdx Model.Hds Proofs.Hds.
 Open Scope Z_scope.
 
 (* 1. The stream state machine (seek SET/CUR/END, read n / -1 / past the end, peek, readoffset,
@@ -85,3 +85,31 @@ Theorem C08_vhd_sector_iface :
   srcs_of p = map (guest_src d) (zseq (sector * SECTOR) (count * SECTOR)).
 Proof. intros d H fuel. exact (dyn_read_sectors_correct d H fuel). Qed.
 Print Assumptions C08_vhd_sector_iface.
+
+(* 6. Byte level, for every content of the backing files: over any reader that meets the contract,
+      every finite history returns exactly the guest bytes [guest o = byte_of (gsrc o)] of the
+      immutable array — the stream model here carries real byte lists, not extents. *)
+Theorem C08_stream_returns_guest_bytes :
+  forall (B : Type) (zero : B) (file data parent : Z -> B) (infl : Z -> Z -> B)
+         size align bread gsrc,
+  0 < align -> 0 <= size -> reader_contract size align bread gsrc ->
+  forall ops, exists st',
+    brun size align (bytes_backend zero file data parent infl bread) binit ops =
+    Ok (st', map (array_out (guest zero file data parent infl gsrc)) (spec_run size 0 ops)).
+Proof. intros B zero file data parent infl size align bread gsrc. exact (stream_returns_guest_bytes zero file data parent infl size align bread gsrc). Qed.
+Print Assumptions C08_stream_returns_guest_bytes.
+
+(* instance: a VDI image (any block map), any alignment, any history, any file content *)
+Theorem C08_vdi_stream_bytes :
+  forall (B : Type) (zero : B) (file data parent : Z -> B) (infl : Z -> Z -> B) v align,
+  0 < v_bs v -> vdi_wf v -> 0 < align ->
+  forall ops, exists st',
+    brun (v_size v) align
+      (bytes_backend zero file data parent infl (fun off len => vdi_read v (vdi_fuel len) off len)) binit ops =
+    Ok (st', map (array_out (guest zero file data parent infl (vdi_src v))) (spec_run (v_size v) 0 ops)).
+Proof.
+  intros B zero file data parent infl v align Hbs Hwf Hal.
+  apply (stream_returns_guest_bytes zero file data parent infl); [exact Hal|apply Hwf|].
+  now apply vdi_contract.
+Qed.
+Print Assumptions C08_vdi_stream_bytes.
